@@ -30,16 +30,22 @@ ASSUMES = [
     "header values reach File via HTTPChannel: no NUL/CR/LF inside, no leading/trailing SP/HTAB (the channel strips them)",
     "NoRangeStaticProducer (200 path) is abstracted in the model to 'the whole content'; the tie still runs it",
 ]
-TRUSTED = ["twisted.web.server.Site/Request and http.HTTPChannel response serialisation (used as the observation path)",
+TRUSTED = ["harness/py2lean.py (translator: static.File._rangeToOffsetAndSize is regenerated into lean/Generated/Range.lean on "
+           "every run, one definition per None-pattern of (start, end); translator-regenerated kernel proved equal to the model: "
+           "TwistedProps.C25.gen_r2os, gen_r2os_of_parse, gen_r2os_within)",
+           "twisted.web.server.Site/Request and http.HTTPChannel response serialisation (used as the observation path)",
            "task.Cooperator on task.Clock substituted for the global cooperator that drives pull producers"]
 MANIFEST = {
     "text": "Lean theorems (TwistedProps/C25.lean) over a model of File._parseRangeHeader/_rangeToOffsetAndSize/_doSingle/"
             "_doMultipleRangeRequest and the Single/MultipleRangeStaticProducer loops: for every content, header and buffer size the "
             "response is 200+whole content (absent/malformed), 206 with exactly the RFC 9110 byte ranges, matching Content-Range/"
             "Content-Length (multipart for several), or 416; the producer loops terminate and never read outside the file. "
-            "Model tied to static.py by differential runs through Site+HTTPChannel; RFC oracle parses multipart bodies independently.",
+            "Model tied to static.py by differential runs through Site+HTTPChannel; RFC oracle parses multipart bodies independently; "
+            "_rangeToOffsetAndSize is regenerated from static.py by the translator on every run and proved equal to the model's r2os "
+            "on every range the parser can produce (gen_r2os*).",
     "note": "trusts Lean kernel, the hand-written model (differentially tied), HTTPChannel/Request as observation path, CPython bytes/int semantics",
-    "technique": "Lean 4 proof (parser soundness over rendered headers, loop invariant with fuel measure) + differential tie + RFC oracle",
+    "technique": "Lean 4 proof (parser soundness over rendered headers, loop invariant with fuel measure) + differential tie + RFC oracle + "
+                 "translator-regenerated kernel proved equal to the model",
     "design_ref": "DESIGN.md §7.4 C25",
 }
 
